@@ -39,6 +39,26 @@ CHECKS = {
         note="Same trusted base as C01.",
         ref="6 C07",
     ),
+    "C06": dict(
+        text="Consistency verdicts and tolerance partitions of both variants against Part(B) of the spec for every base of the 2-atom universe (all shapes, both modes), TLC-validated partitions and diagnostics flags for sampled bases with fact lists, and refusal (error, not answer) of every operator/back-end/mode exactly when the spec's PrepRefuse condition holds.",
+        note="Same trusted base as C01; order inside a layer is not part of the meaning and is not compared.",
+        ref="6 C06",
+    ),
+    "C08": dict(
+        text="Relations monitor (Trace_Relations.tla): the inclusion chain p<=Z<=W<=lex (both modes) and p<=c<=W (strict) is checked by TLC row by row on answers the real operators gave for corpora, generated 8-40 atom bases and sampled small bases; the inclusions themselves are TLC-checked theorems of the spec.",
+        note="A monitor: implications between the code's own answers, no oracle needed, hence no size bound; rows flagged timed out are skipped and counted.",
+        ref="6 C08", tech="TLA+ Relations monitor validated by TLC over recorded answers of the real operators (trace validation); inclusions model-checked on the spec",
+    ),
+    "C09": dict(
+        text="Postulate instances (DI, REF, SCL, LLE, RW, AND, OR, CM, CUT, consistency preservation, RM for Z and lex) are generated per base with premises the code itself answered True; TLC checks premises => conclusion on the recorded answers; the schemas are TLC-checked theorems of the spec for all propositions over 2 atoms.",
+        note="Monitor over the code's own answers; vacuity guard: the check fails as machinery error if any postulate never fires with true premises.",
+        ref="6 C09", tech="TLA+ Relations monitor validated by TLC over recorded answers (trace validation); postulates model-checked on the spec",
+    ),
+    "C11": dict(
+        text="Equality of answers across every usable pmaxsat_solver value (z3, rc2, rc2-<engine>; engines smoke-tested in subprocesses) for System W, lex and c-inference in both modes, checked by TLC on recorded answers for corpora, generated and sampled bases.",
+        note="Quick compares z3, rc2 and 4 seeded engines; thorough all 17 usable engines. Unusable engines (cms, ks, lgl) are listed in the evidence.",
+        ref="6 C11", tech="TLA+ Relations monitor validated by TLC over recorded answers (trace validation)",
+    ),
 }
 
 NOT_YET = {
